@@ -414,6 +414,17 @@ func enumC16(tier string) []Plan {
 		}
 		out = append(out, p)
 	}
+	// items that are already in the backend in another chunk layout
+	fid := 0
+	for _, kl := range []int64{10, 100, 250} {
+		for _, slab := range []int64{2048, 944} {
+			for _, prep := range []int64{0, 1} {
+				fid++
+				out = append(out, Plan{Prop: "C16", Seed: uint64(0xC16F00 + fid), Mode: "foreign",
+					X: map[string]int64{"keylen": kl, "foreign_full": slab - 71 - kl, "vlen": 3000, "prepend": prep}})
+			}
+		}
+	}
 	return out
 }
 
@@ -427,6 +438,9 @@ func genC16(seed uint64, tier string) Plan {
 func execC16(t *testing.T, p Plan, src kernel.Source) Result {
 	if p.Mode == "overlap" {
 		return execC16Overlap(t, p, src)
+	}
+	if p.Mode == "foreign" {
+		return execC16Foreign(t, p, src)
 	}
 	return execChunkSeq(t, p, src, "C16", true)
 }
@@ -452,7 +466,7 @@ func init() {
 	})
 	register(&Prop{
 		ID: "C16", Gen: genC16, Exec: execC16, Enumerate: enumC16,
-		Rule:       "standing monitor inside the simulated backend on every SET/ADD/REPLACE it receives from the real chunked handler: data entries of a key all have value length 1184-71-keylen, backend key + value + 67 <= 1184, metadata is 40 bytes; after each set the number of chunks written and recorded equals ceil(len/payload). Enumerated part: every key length 1..250 x value lengths {0, 1, payload-1, payload, payload+1, 2p-1, 2p, 2p+1, 3p, 6p-1, 6p, 6p+1} (+ 999p, 999p-1, 998p+1, 100p+1 for every key length in the thorough tier, for 36 key lengths in the quick tier), each set followed by a get. Seeded part, one half: the C04 workload with the monitor on. Other half, overlap mode: 2-4 tasks, each with its own handler, backend connection and key (all key lengths different), 2-5 commands each (set/add/replace of 0-4 chunks, append, prepend, get, delete), interleaved by the kernel at backend-request and reply granularity while the backend refuses 0-4 requests (out of memory, busy, temporary failure, internal error, too large); the monitor sees every entry, a frame the backend cannot parse counts as an entry of the wrong length, a command that never returns is a hang, and at the end every metadata entry records ceil(length/payload) chunks of the payload size its key length dictates. Distinct = distinct plan hash",
+		Rule:       "standing monitor inside the simulated backend on every SET/ADD/REPLACE it receives from the real chunked handler: data entries of a key all have value length 1184-71-keylen, backend key + value + 67 <= 1184, metadata is 40 bytes; after each set the number of chunks written and recorded equals ceil(len/payload). Enumerated part: every key length 1..250 x value lengths {0, 1, payload-1, payload, payload+1, 2p-1, 2p, 2p+1, 3p, 6p-1, 6p, 6p+1} (+ 999p, 999p-1, 998p+1, 100p+1 for every key length in the thorough tier, for 36 key lengths in the quick tier), each set followed by a get. Twelve enumerated cases start from an item that is already in the backend in another chunk layout (data entries sized for a 2048- or a 944-byte slab): it must read back, and what append / prepend write must again have this key's own entry size and chunk count. Seeded part, one half: the C04 workload with the monitor on. Other half, overlap mode: 2-4 tasks, each with its own handler, backend connection and key (all key lengths different), 2-5 commands each (set/add/replace of 0-4 chunks, append, prepend, get, delete), interleaved by the kernel at backend-request and reply granularity while the backend refuses 0-4 requests (out of memory, busy, temporary failure, internal error, too large); the monitor sees every entry, a frame the backend cannot parse counts as an entry of the wrong length, a command that never returns is a hang, and at the end every metadata entry records ceil(length/payload) chunks of the payload size its key length dictates. Distinct = distinct plan hash",
 		Real:       realChunked,
 		Stub:       stubChunked,
 		FaultKinds: []string{"status"},
